@@ -13,11 +13,12 @@ import (
 
 type verifCase struct {
 	Shape c05shape.Shape `json:"shape"`
-	Conf  string         `json:"conf"` // JSON text whose field keys are re-spelled (snake_case, other initial case)
+	Conf  string         `json:"conf"`  // JSON text whose field keys are re-spelled (snake_case, other initial case)
+	CYaml string         `json:"cyaml"` // the same re-spelled document as YAML text ("" = none)
 	Keys  []string       `json:"keys"`
 }
 
-// TestVerifDriver loads the re-spelled document with LoadFromJsonBytes and tabulates toCamelCase.
+// TestVerifDriver loads the re-spelled document with LoadFromJsonBytes (and LoadFromYamlBytes) and tabulates toCamelCase.
 func TestVerifDriver(t *testing.T) {
 	verifdrv.Run(t, func(raw json.RawMessage) any {
 		var c verifCase
@@ -36,6 +37,9 @@ func TestVerifDriver(t *testing.T) {
 				return map[string]any{"error": "shape: " + pv}
 			}
 			out["c"] = c05shape.RunInto(typ, func(v any) error { return LoadFromJsonBytes([]byte(c.Conf), v) })
+			if c.CYaml != "" {
+				out["cy"] = c05shape.RunInto(typ, func(v any) error { return LoadFromYamlBytes([]byte(c.CYaml), v) })
+			}
 		}
 		return out
 	})
